@@ -92,6 +92,28 @@ func runPrefix(w *World, name string) {
 			w.Step(pt.Action{Op: "inc", R: 0, P: 1})
 		}
 		syncAll()
+	case "skew": // the last replica is three operations ahead and has pushed them; nobody has pulled yet: a later pull
+		// delivers a batch of several writers in which a lower clock value follows higher ones
+		l := len(w.reps) - 1
+		switch w.P.Type {
+		case "map":
+			w.Step(pt.Action{Op: "put", R: l, K: "a", V: "p"})
+			w.Step(pt.Action{Op: "put", R: l, K: "b", V: "p"})
+			w.Step(pt.Action{Op: "put", R: l, K: "a", V: "p"})
+		case "list":
+			w.Step(pt.Action{Op: "ins1", R: l, P: 0, V: "p"})
+			w.Step(pt.Action{Op: "ins1", R: l, P: 1, V: "p"})
+			w.Step(pt.Action{Op: "ins1", R: l, P: 2, V: "p"})
+		case "doc":
+			w.Step(pt.Action{Op: "dput", R: l, K: "a", V: "a"})
+			w.Step(pt.Action{Op: "dins", R: l, T: "a", P: 2, N: 1, V: "p"})
+			w.Step(pt.Action{Op: "dins", R: l, T: "a", P: 3, N: 1, V: "p"})
+		default:
+			for k := 0; k < 3; k++ {
+				w.Step(pt.Action{Op: "inc", R: l, P: 1})
+			}
+		}
+		w.Step(pt.Action{Op: "sync", R: l})
 	case "deep-list":
 		w.Step(pt.Action{Op: "ins", R: 0, P: 0, N: 12, V: "p"})
 		w.Step(pt.Action{Op: "sync", R: 0})
@@ -181,7 +203,7 @@ func localCalls(w *World, ri int, alpha string) []pt.Action {
 	case r.li != nil:
 		n := r.li.Size()
 		ipos := uniq(0, n)
-		if rich {
+		if rich || strings.Contains(alpha, "mid") {
 			ipos = uniq(0, n/2, n)
 		}
 		for _, p := range ipos {
@@ -303,6 +325,12 @@ func (m *e1Machine) Enabled() []pt.Action {
 			as = append(as, pt.Action{Op: "tx", R: i, Sub: []pt.Action{}})
 			if inv, ok := invalidCall(m.w, i); ok {
 				as = append(as, pt.Action{Op: "tx", R: i, Sub: []pt.Action{inv}})
+			}
+			// a body during which a background sync applies an answer without news (DESIGN 11.7)
+			ackBody := []pt.Action{calls[0], {Op: "ack", R: i}, calls[0]}
+			as = append(as, pt.Action{Op: "tx", R: i, Sub: ackBody})
+			if maySkip {
+				as = append(as, pt.Action{Op: "tx", R: i, Sub: ackBody, Fail: true})
 			}
 			for _, c := range calls {
 				bodies := [][]pt.Action{{c}, {c, calls[0]}}
